@@ -18,11 +18,19 @@ for d in sorted(glob.glob(os.path.join(V, "seeded", "C*"))):
                      "violation_lines": len(viol),
                      "with_concrete_input": sum(1 for v in viol if not v),
                      "broken": [l[len("BROKEN property=%s " % pid):][:200] for l in re.findall(r"^BROKEN .*", t, re.M)][:4]}
+    first = {}
+    for lf in sorted(glob.glob(os.path.join(d, "first_detect_*.log"))):
+        pid = os.path.basename(lf)[13:-4]
+        t = open(lf).read()
+        viol = re.findall(r"^VIOLATION property=\S+ replay=\S+( no-failing-input-found)?", t, re.M)
+        first[pid] = {"exit_status": 1 if viol else 0, "violation_lines": len(viol),
+                      "note": "result of the check as it stood when this seed arrived (before it was strengthened)"}
     m["verif"] = {"confirmed_in_scratch_worktree": "CONFIRMED" in conf,
                   "confirmation": "tools/seed_confirm.sh (see confirm.log): patch == worktree diff, demo fails with it, "
                                   "cargo test --workspace --no-fail-fast --offline passes with it, demo passes without it",
                   "demo": "tools/seeded_demo.sh %s with|without  (fresh scratch worktree)" % os.path.basename(d),
                   "checks_run": runs,
+                  "first_version_result": first,
                   "detected_by": sorted(k for k, v in runs.items() if v["exit_status"] == 1)}
     json.dump(m, open(mp, "w"), indent=1)
     print(os.path.basename(d), m["verif"]["confirmed_in_scratch_worktree"], m["verif"]["detected_by"])
